@@ -9,6 +9,7 @@ import z3
 from contracts.common import *  # noqa
 from contracts import common
 from contracts.cli_c import unit_emit_files, EMIT_SHAPES, replay_emit_files  # noqa
+from contracts.meta_c import unit_add_emitted, EMIT_CMDS, SOURCE_NAMES  # noqa
 from pyvc import driver
 from pyvc.engine import seqsum, to_z3bytes
 
@@ -277,9 +278,48 @@ def unit_demodulate_rac(eng, tier="quick"):
     return dict(unit="demodulate-rac", func="bk_wav.encode_as_wav (run-time check)", paths=len(images), obligations=obs, wall=0.0)
 
 
+def unit_bounded_paths(eng):
+    """bounded stand-in for devices.resolve_relative_path (os.path is the stdlib's): a relative path is taken from the directory of the
+    including source file, an absolute one is used as written - against an independent few-line reference"""
+    rels = ["out.bin", "sub/x.raw", "./a", "../up.bin", "a/../b", "/abs/x.bin", "/", "x//y", "dir/", "\u0444.bin", "a b.wav"]
+    bases = ["/src/prog.mac", "prog.mac", "dir/prog.mac", "/a/b/../c/p.mac", "./p.mac"]
+    code = "from pdpy11.devices import resolve_relative_path\nresult = [[r, b, resolve_relative_path(r, b)] for r in %r for b in %r]\n" % (rels, bases)
+    res = driver.native([{"kind": "py", "code": code}], driver.tree_root())[0]
+
+    def ref(rel, base):
+        if rel.startswith("/"):
+            return rel
+        parts = [] if "/" not in base else base.rsplit("/", 1)[0].split("/")
+        absolute = base.startswith("/")
+        out = []
+        for p_ in [x for x in parts if x not in ("", ".")] + [x for x in rel.split("/") if x not in ("", ".")]:
+            if p_ == ".." and out and out[-1] != "..":
+                out.pop()
+            elif p_ == ".." and absolute:
+                pass
+            else:
+                out.append(p_)
+        r_ = ("/" if absolute else "") + "/".join(out)
+        return r_ or ("/" if absolute else ".")
+    bad = []
+    n = 0
+    if res["status"] != "ok":
+        bad.append(str(res)[:300])
+    else:
+        for rel, base, got in res["result"]:
+            n += 1
+            if got != ref(rel, base):
+                bad.append((rel, base, got, ref(rel, base)))
+    ob = dict(label="resolve_relative_path==reference(relative to the including file's directory; absolute paths unchanged)", kind="bounded", status="proved" if n and not bad else "failed", secs=0.0,
+              path=[], witness=None, detail=str(bad[:4]), events=[], smt2=None, backend="cpython-native", unit="bounded-paths", func="devices.resolve_relative_path (bounded stand-in)",
+              bound="%d path forms x %d source-file forms" % (len(rels), len(bases)), cases=n, cfg=dict(kind="bounded"))
+    return dict(unit="bounded-paths", func="devices.resolve_relative_path (bounded stand-in)", paths=n, obligations=[ob], wall=0.0)
+
+
+
 def units(tier):
     us = [("bin", "unit_bin", {}), ("raw", "unit_raw", {}), ("make_wav", "unit_make_wav", {}), ("constants", "unit_constants", {}),
-          ("demodulate-rac", "unit_demodulate_rac", dict(tier=tier))]
+          ("demodulate-rac", "unit_demodulate_rac", dict(tier=tier)), ("bounded-paths", "unit_bounded_paths", {})]
     for n in (0, 1, 2):
         us.append(("data_bits[%d]" % n, "unit_data_bits", dict(n=n)))
     for turbo in (False, True):
@@ -287,6 +327,12 @@ def units(tier):
             us.append(("wav[%s,%s]" % (turbo, via), "unit_encode_as_wav", dict(turbo=turbo, via=via)))
     for sh in EMIT_SHAPES:
         us.append(("emit_files[%s]" % ",".join(sh), "unit_emit_files", dict(shape=sh)))
+    for cmd in EMIT_CMDS:
+        for hp, hn in ((False, False), (True, False), (True, True)):
+            if hn and not cmd.endswith("wav"):
+                continue
+            for src in (SOURCE_NAMES if not hp else ["/src/prog.mac"]):
+                us.append(("%s[%s,%s,%s]" % (cmd, hp, hn, src), "unit_add_emitted", dict(cmd=cmd, has_path=hp, has_name=hn, source=src)))
     return us
 
 
@@ -309,11 +355,57 @@ def _wav_checksum_replay(total_ff, tree, extra=0):
                 expected=[exp], observed=[d["checksum"]], reproduced=d["checksum"] != exp)
 
 
+def replay_add_emitted(o, tree):
+    """the directive in a real source file under each source-name form: the files that appear and, for tapes, the demodulated name"""
+    import os
+    import shutil
+    import subprocess
+    import tempfile
+    from spec import bk_tape
+    cfg = o["cfg"]
+    d = tempfile.mkdtemp(prefix="pyvc-path-")
+    bad = []
+    try:
+        for srcname, stem in (("prog.mac", "prog"), ("GAME.MAC", "GAME"), ("prog.asm", "prog.asm"), ("noext", "noext")):
+            wd = os.path.join(d, srcname.replace(".", "_"))
+            os.makedirs(os.path.join(wd, "sub"))
+            ops = []
+            if cfg["has_path"]:
+                ops.append('"sub/out.file"')
+            if cfg["has_name"]:
+                ops.append('"TAPE NAME"')
+            open(os.path.join(wd, srcname), "w").write("%s %s\n.word 1, 2\n" % (cfg["cmd"], ", ".join(ops)))
+            p = subprocess.run(["/venv/bin/python", "-c", "import sys; sys.path.insert(0, %r); sys.argv = ['pdpy11', %r]; from pdpy11._cli import main_cli; main_cli()" % (tree, srcname)],
+                               cwd=wd, capture_output=True, text=True, timeout=120)
+            fmt, ext = EMIT_CMDS[cfg["cmd"]]
+            want = "sub/out.file" if cfg["has_path"] else stem + ext
+            files = sorted(os.path.relpath(os.path.join(r_, f), wd) for r_, _, fs in os.walk(wd) for f in fs if f != srcname)
+            if files != [want]:
+                bad.append((srcname, "files", files, "expected", [want])); continue
+            data = open(os.path.join(wd, want), "rb").read()
+            if fmt == "raw" and data != b"\x01\0\x02\0":
+                bad.append((srcname, "raw bytes", data.hex()))
+            if fmt == "bin" and data != b"\0\x02\x04\0\x01\0\x02\0":
+                bad.append((srcname, "bin bytes", data.hex()))
+            if fmt == "bk_wav":
+                nm = bytes(bk_tape.demodulate(data[44:])["name"])
+                exp = (b"TAPE NAME" if cfg["has_name"] else (b"out.file" if cfg["has_path"] else stem.encode())).ljust(16)
+                if nm != exp:
+                    bad.append((srcname, "tape name", nm, "expected", exp))
+        return dict(jobs=None, experiment="%s with path=%s name=%s under four source-file names, through the real CLI" % (cfg["cmd"], cfg["has_path"], cfg["has_name"]), observed=bad or "as expected", reproduced=bool(bad))
+    finally:
+        shutil.rmtree(d, ignore_errors=True)
+
+
 def replay(o, tree):
     cfg = o.get("cfg") or {}
     w = o.get("witness") or {}
+    if o.get("kind") == "bounded":
+        return None
     if cfg.get("kind") == "emit_files":
         return replay_emit_files(o, tree)
+    if cfg.get("kind") == "add_emitted":
+        return replay_add_emitted(o, tree)
     if cfg.get("kind") == "wav":
         # smallest image with a positive byte sum that is a multiple of 65535: 257 bytes of 0xFF; generally use the witness sum if feasible
         S = w.get("sum", 65535)
